@@ -498,6 +498,8 @@ def install(world):
     def b_frozenset(it, node, x=()):
         if isinstance(x, S.SSet):
             return S.SSet(x.arr, x.elem)
+        if isinstance(x, str):
+            return frozenset(x)
         if isinstance(x, (tuple, list, set, frozenset)):
             if getattr(world, 'symbolic_sets', False) and not it.spec:
                 out = S.empty_set(TVal)
@@ -721,6 +723,19 @@ def install(world):
             return o
         return NotImplemented
     world.method_models.append(exc_method)
+    world.lib[('functools', 'cmp_to_key')] = Model(
+        'functools.cmp_to_key', lambda f: CmpKeyMaker(f))
+
+    def cmpkey_binop(op, a, b, it):
+        if isinstance(a, CmpKey) and isinstance(b, CmpKey) and op in (
+                '<', '<=', '>', '>='):
+            r = it.call(a.cmp, [a.obj, b.obj], {})
+            import ast as _ast
+            node = {'<': _ast.Lt, '<=': _ast.LtE, '>': _ast.Gt,
+                    '>=': _ast.GtE}[op]()
+            return it.compare1(node, r, 0, None)
+        return NotImplemented
+    world.binop_models.append(cmpkey_binop)
     world.lib[('sys', 'exc_info')] = Model(
         'sys.exc_info', lambda: (None, None, None))
 
@@ -1036,27 +1051,73 @@ def _pair_parts(x):
     return None
 
 
+class CmpKey(S.Sym):
+    """functools.cmp_to_key(cmp)(obj): ordered by the comparison function."""
+
+    def __init__(self, cmp, obj):
+        self.cmp, self.obj = cmp, obj
+
+
+class CmpKeyMaker:
+    def __init__(self, cmp):
+        self.cmp = cmp
+        self.name = 'cmp_to_key'
+
+    def __call__(self, obj):
+        return CmpKey(self.cmp, obj)
+
+
 def _stable_sort(items, key, reverse, it, node):
+    """list.sort / sorted of a short concrete list, following CPython 3.12's
+    listsort step by step (count_run, then binary insertion; n < 64), so
+    that the result is CPython's even when the comparison is not a
+    consistent order.  Every `<` on possibly symbolic keys forks."""
     import ast as _ast
     if S.is_sym(reverse):
         raise Unsupported('sort with symbolic reverse flag')
-    keys = [it.call(key, [x], {}, node) if key is not None else x
-            for x in items]
-    out = []        # (key, item), kept sorted
-    for k, x in zip(keys, items):
-        pos = len(out)
-        # stable: x goes after every earlier element that does not have to
-        # come after it (reverse keeps equal elements in original order too)
-        while pos > 0:
-            pk = out[pos - 1][0]
-            before = it.compare1(_ast.Gt() if reverse else _ast.Lt(),
-                                 k, pk, node)
-            t = it.truth(before)
-            if not it.branch(t if isinstance(t, bool) else t):
+    n = len(items)
+    if n >= 64:
+        raise Unsupported('sort of %d elements' % n)
+    ks = [it.call(key, [x], {}, node) if key is not None else x
+          for x in items]
+    pairs = list(zip(ks, items))
+    if reverse:
+        pairs.reverse()
+
+    def islt(a, b):
+        t = it.truth(it.compare1(_ast.Lt(), a[0], b[0], node))
+        return it.branch(t)
+    if n >= 2:
+        # count_run
+        run = 2
+        lo = 1
+        descending = islt(pairs[1], pairs[0])
+        lo = 2
+        while lo < n:
+            lt = islt(pairs[lo], pairs[lo - 1])
+            if (descending and not lt) or (not descending and lt):
                 break
-            pos -= 1
-        out.insert(pos, (k, x))
-    return [x for _, x in out]
+            lo += 1
+            run += 1
+        if descending:
+            pairs[:run] = pairs[:run][::-1]
+        # binarysort(lo=0, hi=n, start=run)
+        for start in range(run, n):
+            pivot = pairs[start]
+            l, r = 0, start
+            while True:
+                p = l + ((r - l) >> 1)
+                if islt(pivot, pairs[p]):
+                    r = p
+                else:
+                    l = p + 1
+                if not l < r:
+                    break
+            del pairs[start]
+            pairs.insert(l, pivot)
+    if reverse:
+        pairs.reverse()
+    return [x for _, x in pairs]
 
 
 def seq_method(world, o, name, args, kw, it, node):
@@ -1162,6 +1223,21 @@ def seq_method(world, o, name, args, kw, it, node):
             return it.compare1(_ast.LtE() if name == 'issubset'
                                else _ast.GtE(), o, args[0], node)
         raise Unsupported('set.%s on symbolic set' % name)
+    if isinstance(o, (set, frozenset)) and name in (
+            'issuperset', 'issubset', 'isdisjoint', 'union', 'intersection',
+            'difference') and len(args) == 1:
+        x = args[0]
+        if isinstance(x, (set, frozenset, tuple, list, str)) and not any(
+                S.is_sym(e) for e in (x if not isinstance(x, str) else ())):
+            return getattr(o, name)(x)
+        if name == 'issuperset' and isinstance(x, SStr) and all(
+                isinstance(e, str) and len(e) == 1 for e in o):
+            # every character of the string is one of the set's characters
+            if not o:
+                return SBool(z3.Length(x.t) == 0)
+            alts = [z3.Re(z3.StringVal(e)) for e in sorted(o)]
+            cls = z3.Union(*alts) if len(alts) > 1 else alts[0]
+            return SBool(z3.InRe(x.t, z3.Star(cls)))
     if isinstance(o, (set,)):
         if name == 'add':
             if S.is_sym(args[0]):
